@@ -1,6 +1,9 @@
-(* JSON string escaping as serde_json does it: it can be undone, and it produces a single line. *)
-Require Import FL.Base.Bytes FL.Base.BytesFacts FL.Formats.Formats.
+(* JSON string escaping as serde_json does it: it can be undone, and it produces a single line.
+   Key-value pairs: the Debug form of the text formats can be undone, the map of the JSON format is sorted strictly by
+   key, has the keys of the source and the value of the last occurrence of each key, and decodes back. *)
+Require Import FL.Base.Bytes FL.Base.BytesFacts FL.Names.NamesFacts FL.Formats.Formats.
 Require Import Lia ZifyN ZifyBool.
+From Coq Require Import Sorted.
 Open Scope N_scope.
 
 (* every byte value *)
@@ -155,6 +158,20 @@ Proof.
   apply Forall_cons; [|apply Forall_nil]. apply ok_json_field, ok_json_string.
 Qed.
 
+Lemma ok_json_kv_value v : ok (json_kv_value v).
+Proof. destruct v as [n|s]; cbn [json_kv_value]; [apply ok_dec | apply ok_json_string]. Qed.
+
+Lemma ok_json_kv_object m : ok (json_kv_object m).
+Proof.
+  unfold json_kv_object.
+  apply ok_app; [repeat (constructor; try lia)|].
+  apply ok_app; [|repeat (constructor; try lia)].
+  apply ok_join; [repeat (constructor; try lia)|].
+  rewrite Forall_forall. intros x Hx. apply in_map_iff in Hx. destruct Hx as [[k v] [Hkv _]]. subst x. cbn [fst snd].
+  apply ok_app; [apply ok_json_string|].
+  apply ok_app; [repeat (constructor; try lia) | apply ok_json_kv_value].
+Qed.
+
 Lemma ok_json_line ts r : ok (json_line ts r).
 Proof.
   unfold json_line.
@@ -163,24 +180,457 @@ Proof.
   apply ok_join; [repeat (constructor; try lia)|].
   assert (forall a b : list bytes, Forall ok a -> Forall ok b -> Forall ok (a ++ b)) as FA
     by (intros; apply Forall_app; split; assumption).
-  apply FA; [|apply FA; [|apply FA; [|apply FA; [|apply FA]]]].
+  apply FA; [|apply FA; [|apply FA; [|apply FA; [|apply FA; [|apply FA]]]]].
   - repeat (apply Forall_cons; [apply ok_json_field, ok_json_string|]). apply Forall_nil.
   - apply ok_opt_field.
   - apply ok_opt_field.
   - apply ok_opt_field.
   - destruct (fr_line r); [|apply Forall_nil].
     apply Forall_cons; [apply ok_json_field, ok_dec | apply Forall_nil].
+  - destruct (kv_map (fr_kv r)) as [|p m]; [apply Forall_nil|].
+    apply Forall_cons; [apply ok_json_field, ok_json_kv_object | apply Forall_nil].
   - apply Forall_cons; [apply ok_json_field, ok_json_string | apply Forall_nil].
 Qed.
 
-(* the whole JSON line of a record has no control character: one record = one line, whatever the texts are *)
+(* the texts of the key-value pairs are byte strings: every key and every string value *)
+Definition kvval_bytes_ok (v : kvval) : Prop := match v with KInt _ => True | KStr s => Forall is_byte s end.
+Definition kv_bytes_ok (kvs : list (bytes * kvval)) : Prop :=
+  Forall (fun kv : bytes * kvval => Forall is_byte (fst kv) /\ kvval_bytes_ok (snd kv)) kvs.
+
+(* the whole JSON line of a record has no control character: one record = one line, whatever the texts and the
+   key-value pairs are *)
 Theorem json_line_single_line : forall ts r,
   Forall is_byte ts -> Forall is_byte (fr_msg r) ->
   (forall m, fr_module r = Some m -> Forall is_byte m) -> (forall f, fr_file r = Some f -> Forall is_byte f) ->
   (forall t, fr_thread r = Some t -> Forall is_byte t) ->
+  kv_bytes_ok (fr_kv r) ->
   forall c, In c (json_line ts r) -> 32 <= c.
 Proof.
-  intros ts r _ _ _ _ _ c Hc. pose proof (ok_json_line ts r) as H.
+  intros ts r _ _ _ _ _ _ c Hc. pose proof (ok_json_line ts r) as H.
   unfold ok in H. rewrite Forall_forall in H. apply H, Hc.
 Qed.
 Print Assumptions json_line_single_line.
+
+(* ====================================================================================================== *)
+(* Key-value pairs                                                                                         *)
+(* ====================================================================================================== *)
+
+(* ---- the text formats: Rust's Debug form of a string can be undone ---- *)
+
+Lemma byte_sweep_b (p : N -> bool) : forallb p all_bytes = true -> forall c, c < 256 -> p c = true.
+Proof.
+  intros H c Hc. rewrite forallb_forall in H. apply H, all_bytes_complete, Hc.
+Qed.
+
+(* the decoder: the specification of "is the Debug form of" *)
+Fixpoint undebug (fuel : nat) (s : bytes) : option bytes :=
+  match fuel with
+  | O => match s with [] => Some [] | _ => None end
+  | S f =>
+    match s with
+    | [] => Some []
+    | 92 :: 117 :: 123 :: a :: 125 :: r =>
+      match unhex_digit a, undebug f r with
+      | Some x, Some t => Some (x :: t)
+      | _, _ => None
+      end
+    | 92 :: 117 :: 123 :: a :: b :: 125 :: r =>
+      match unhex_digit a, unhex_digit b, undebug f r with
+      | Some x, Some y, Some t => Some ((x * 16 + y) :: t)
+      | _, _, _ => None
+      end
+    | 92 :: c :: r =>
+      match (if c =? 34 then Some 34 else if c =? 92 then Some 92 else if c =? 110 then Some 10 else if c =? 114 then Some 13
+             else if c =? 116 then Some 9 else if c =? 48 then Some 0 else None), undebug f r with
+      | Some x, Some t => Some (x :: t)
+      | _, _ => None
+      end
+    | c :: r => if (c =? 34) || (c =? 92) || (c <? 32) || (c =? 127) then None
+                else match undebug f r with Some t => Some (c :: t) | None => None end
+    end
+  end.
+
+(* one byte in Debug form in front: one unit of fuel decodes it *)
+Lemma undebug_debug_byte : forall c, c < 256 -> forall f r,
+  undebug (S f) (debug_byte c ++ r)
+  = match undebug f r with Some t => Some (c :: t) | None => None end.
+Proof.
+  apply (byte_sweep (fun c => forall f r,
+    undebug (S f) (debug_byte c ++ r)
+    = match undebug f r with Some t => Some (c :: t) | None => None end)).
+  unfold all_bytes.
+  repeat (apply Forall_cons; [intros f r; reflexivity | ]).
+  apply Forall_nil.
+Qed.
+
+Lemma undebug_nil fuel : undebug fuel [] = Some [].
+Proof. destruct fuel; reflexivity. Qed.
+
+Lemma undebug_debug_fuel : forall s, Forall is_byte s ->
+  forall fuel, (length s <= fuel)%nat -> undebug fuel (flat_map debug_byte s) = Some s.
+Proof.
+  induction 1 as [|c s Hc Hs IH]; intros fuel Hf.
+  - apply undebug_nil.
+  - destruct fuel as [|f]; [cbn [length] in Hf; lia|].
+    cbn [flat_map].
+    rewrite (undebug_debug_byte c Hc), IH; [reflexivity | cbn [length] in Hf; lia].
+Qed.
+
+Lemma debug_byte_length c : (1 <= length (debug_byte c))%nat.
+Proof.
+  unfold debug_byte.
+  repeat match goal with |- context [if ?b then _ else _] => destruct b end; cbn [length app]; lia.
+Qed.
+
+Lemma debug_length s : (length s <= length (flat_map debug_byte s))%nat.
+Proof.
+  induction s as [|c s IH]; cbn [flat_map length]; [lia|].
+  rewrite app_length. pose proof (debug_byte_length c). lia.
+Qed.
+
+Theorem undebug_debug : forall s, Forall is_byte s ->
+  undebug (length (flat_map debug_byte s)) (flat_map debug_byte s) = Some s.
+Proof.
+  intros s Hs. apply undebug_debug_fuel; [exact Hs | apply debug_length].
+Qed.
+
+(* the whole Debug form, with its two delimiters *)
+Definition undebug_str (t : bytes) : option bytes :=
+  match t with
+  | c :: r => if c =? 34
+              then match rev r with
+                   | e :: q => if e =? 34 then undebug (length q) (rev q) else None
+                   | [] => None
+                   end
+              else None
+  | [] => None
+  end.
+
+Theorem undebug_str_debug : forall s, Forall is_byte s -> undebug_str (debug_str s) = Some s.
+Proof.
+  intros s Hs. unfold debug_str, undebug_str. cbn [app]. rewrite N.eqb_refl.
+  rewrite rev_unit, N.eqb_refl, rev_length, rev_involutive. apply undebug_debug, Hs.
+Qed.
+
+(* hence the Debug form determines the string *)
+Theorem debug_str_inj : forall a b, Forall is_byte a -> Forall is_byte b -> debug_str a = debug_str b -> a = b.
+Proof.
+  intros a b Ha Hb H. pose proof (undebug_str_debug a Ha) as Ea. rewrite H, (undebug_str_debug b Hb) in Ea.
+  injection Ea as Ea. symmetry. exact Ea.
+Qed.
+Print Assumptions debug_str_inj.
+
+(* the Debug form has no control character and no DEL, whatever the string is; a quote is there only in the escape backslash-quote *)
+Lemma hexd_range n : n < 16 -> 48 <= hexd n <= 102.
+Proof. intros Hn. unfold hexd. destruct (N.ltb_spec n 10); lia. Qed.
+
+Lemma debug_byte_printable c d : In d (debug_byte c) -> 32 <= d /\ d <> 127.
+Proof.
+  intros H.
+  assert (Hd : c < 256 -> c / 16 < 16) by (intros Hc; apply N.div_lt_upper_bound; lia).
+  assert (Hm : c mod 16 < 16) by (apply N.mod_lt; lia).
+  pose proof (hexd_range c) as H1. pose proof (hexd_range (c / 16)) as H2. pose proof (hexd_range (c mod 16) Hm) as H3.
+  unfold debug_byte in H.
+  repeat match type of H with context [if ?b then _ else _] => destruct b eqn:? end;
+    cbn [In app] in H; repeat (destruct H as [H|H]; [subst d; lia|]); destruct H.
+Qed.
+
+Theorem debug_str_printable : forall s d, In d (debug_str s) -> 32 <= d /\ d <> 127.
+Proof.
+  intros s d H. unfold debug_str in H. apply in_app_or in H. destruct H as [H|H].
+  - cbn [In] in H. destruct H as [H|[]]. subst d. lia.
+  - apply in_app_or in H. destruct H as [H|H].
+    + apply in_flat_map in H. destruct H as [c [_ H]]. exact (debug_byte_printable c d H).
+    + cbn [In] in H. destruct H as [H|[]]. subst d. lia.
+Qed.
+
+Lemma debug_byte_quote c : debug_byte c = [92; 34] \/ ~ In 34 (debug_byte c).
+Proof.
+  unfold debug_byte, hexd.
+  repeat match goal with |- context [if ?b then _ else _] => destruct b eqn:? end;
+    try (left; reflexivity); right; cbn [In app]; intros H;
+    repeat (destruct H as [H|H]; [lia|]); destruct H.
+Qed.
+
+Theorem debug_str_quotes : forall s,
+  debug_str s = [34] ++ concat (map debug_byte s) ++ [34]
+  /\ Forall (fun t => t = [92; 34] \/ ~ In 34 t) (map debug_byte s).
+Proof.
+  intros s. split.
+  - unfold debug_str. rewrite flat_map_concat_map. reflexivity.
+  - rewrite Forall_forall. intros t Ht. apply in_map_iff in Ht. destruct Ht as [c [Hc _]]. subst t. apply debug_byte_quote.
+Qed.
+
+(* the value of a pair in the text formats: a number in decimal or a string in Debug form; it can be read back *)
+Definition kv_undebug (t : bytes) : option kvval :=
+  match t with
+  | c :: _ => if c =? 34 then match undebug_str t with Some s => Some (KStr s) | None => None end
+              else Some (KInt (dec_value t))
+  | [] => None
+  end.
+
+Theorem kv_text_roundtrip : forall v, kvval_bytes_ok v -> kv_undebug (kv_debug v) = Some v.
+Proof.
+  intros [n|s] Hv; cbn [kv_debug].
+  - destruct (dec n) as [|c r] eqn:E.
+    + exfalso. exact (dec_digits_nonempty _ _ _ E).
+    + assert (48 <= c <= 57) as Hc by (apply (dec_range n); rewrite E; left; reflexivity).
+      unfold kv_undebug. destruct (N.eqb_spec c 34) as [Hq|_]; [lia|].
+      rewrite <- E, dec_value_dec. reflexivity.
+  - cbn [kvval_bytes_ok] in Hv. unfold kv_undebug.
+    rewrite (undebug_str_debug s Hv). unfold debug_str. cbn [app]. rewrite N.eqb_refl. reflexivity.
+Qed.
+Print Assumptions kv_text_roundtrip.
+
+Corollary kv_debug_inj : forall v w, kvval_bytes_ok v -> kvval_bytes_ok w -> kv_debug v = kv_debug w -> v = w.
+Proof.
+  intros v w Hv Hw H. pose proof (kv_text_roundtrip v Hv) as E. rewrite H, (kv_text_roundtrip w Hw) in E.
+  injection E as E. symmetry. exact E.
+Qed.
+
+(* the pairs are rendered in the order of the source, each as key=value, between "{" and "} " *)
+Lemma kv_text_nil : kv_text [] = [].
+Proof. reflexivity. Qed.
+Lemma kv_text_cons p kvs :
+  kv_text (p :: kvs)
+  = [123] ++ join [44; 32] (map (fun kv : bytes * kvval => fst kv ++ [61] ++ kv_debug (snd kv)) (p :: kvs)) ++ [125; 32].
+Proof. reflexivity. Qed.
+
+(* the pairs do not break the line: when the keys have no control character the text of the pairs has none *)
+Lemma ok_kv_debug v : ok (kv_debug v).
+Proof.
+  destruct v as [n|s]; cbn [kv_debug]; [apply ok_dec|].
+  unfold ok. rewrite Forall_forall. intros d Hd. apply debug_str_printable in Hd. lia.
+Qed.
+
+Theorem kv_text_single_line : forall kvs, Forall (fun kv : bytes * kvval => ok (fst kv)) kvs -> ok (kv_text kvs).
+Proof.
+  intros [|p kvs] Hk; [constructor|]. rewrite kv_text_cons.
+  apply ok_app; [repeat (constructor; try lia)|].
+  apply ok_app; [|repeat (constructor; try lia)].
+  apply ok_join; [repeat (constructor; try lia)|].
+  rewrite Forall_forall. intros x Hx. apply in_map_iff in Hx. destruct Hx as [kv [Hkv Hin]]. subst x.
+  rewrite Forall_forall in Hk.
+  apply ok_app; [apply Hk, Hin|]. apply ok_app; [repeat (constructor; try lia) | apply ok_kv_debug].
+Qed.
+
+(* ---- the JSON format: the map of the pairs ---- *)
+
+Lemma kv_lex_lt_irrefl a : lex_lt a a = false.
+Proof.
+  induction a as [|x a IH]; [reflexivity|]. cbn [lex_lt]. rewrite IH, N.ltb_irrefl, andb_false_r. reflexivity.
+Qed.
+
+Lemma kv_lex_lt_connex a : forall b, lex_lt a b = false -> lex_lt b a = false -> a = b.
+Proof.
+  induction a as [|x a IH]; intros [|y b]; cbn [lex_lt]; try (intros; congruence || reflexivity).
+  intros H1 H2. specialize (IH b).
+  destruct (N.ltb_spec x y), (N.ltb_spec y x), (N.eqb_spec x y), (N.eqb_spec y x); cbn [orb andb] in *;
+    try discriminate; try lia. subst y. f_equal. auto.
+Qed.
+
+Lemma kv_lex_lt_trans a : forall b c, lex_lt a b = true -> lex_lt b c = true -> lex_lt a c = true.
+Proof.
+  induction a as [|x a IH]; intros [|y b] [|z c]; cbn [lex_lt]; try (intros; congruence || reflexivity).
+  intros H1 H2. specialize (IH b c).
+  destruct (N.ltb_spec x y), (N.ltb_spec y z), (N.ltb_spec x z), (N.eqb_spec x y), (N.eqb_spec y z), (N.eqb_spec x z);
+    cbn [orb andb] in *; try reflexivity; try discriminate; try lia; auto.
+Qed.
+
+(* strictly ascending keys *)
+Definition kv_lt (a b : bytes * kvval) : Prop := lex_lt (fst a) (fst b) = true.
+
+(* the value of a key: the first pair with that key *)
+Fixpoint assoc (k : bytes) (l : list (bytes * kvval)) : option kvval :=
+  match l with
+  | [] => None
+  | (k', v) :: r => if beq k k' then Some v else assoc k r
+  end.
+
+Lemma assoc_app k a b : assoc k (a ++ b) = match assoc k a with Some v => Some v | None => assoc k b end.
+Proof.
+  induction a as [|[k' v'] a IH]; cbn [app assoc]; [reflexivity|]. destruct (beq k k'); [reflexivity | exact IH].
+Qed.
+
+Lemma assoc_some_in k v l : assoc k l = Some v -> In (k, v) l.
+Proof.
+  induction l as [|[k' v'] l IH]; cbn [assoc]; [discriminate|].
+  destruct (beq_spec k k') as [Hk|Hk]; intros H.
+  - injection H as H. subst. left; reflexivity.
+  - right; apply IH, H.
+Qed.
+
+Lemma assoc_none_iff k l : assoc k l = None <-> ~ In k (map fst l).
+Proof.
+  induction l as [|[k' v'] l IH]; cbn [assoc map In fst].
+  - split; [intros _ H; exact H | reflexivity].
+  - destruct (beq_spec k k') as [Hk|Hk].
+    + split; [discriminate | intros H; exfalso; apply H; left; symmetry; exact Hk].
+    + rewrite IH. split; [intros H [H'|H']; [apply Hk; symmetry; exact H' | exact (H H')] | intros H H'; apply H; right; exact H'].
+Qed.
+
+Lemma in_assoc_nodup k v l : NoDup (map fst l) -> In (k, v) l -> assoc k l = Some v.
+Proof.
+  induction l as [|[k' v'] l IH]; cbn [map fst assoc]; intros Hnd Hin; [destruct Hin|].
+  inversion Hnd as [|x xs Hnotin Hnd']; subst. destruct Hin as [Hin|Hin].
+  - injection Hin as Hk Hv. subst. rewrite beq_refl. reflexivity.
+  - destruct (beq_spec k k') as [Hk|Hk]; [|apply IH; assumption].
+    subst k'. exfalso. apply Hnotin. apply in_map_iff. exists (k, v). split; [reflexivity | exact Hin].
+Qed.
+
+(* inserting into the map: the new key gets the new value, every other key keeps its value *)
+Lemma kv_insert_assoc k v m k0 : assoc k0 (kv_insert k v m) = if beq k0 k then Some v else assoc k0 m.
+Proof.
+  induction m as [|[k' v'] m IH]; cbn [kv_insert assoc]; [reflexivity|].
+  destruct (beq_spec k k') as [Hk|Hk].
+  - subst k'. cbn [assoc]. destruct (beq k0 k); reflexivity.
+  - destruct (lex_le k k'); cbn [assoc]; [reflexivity|]. rewrite IH.
+    destruct (beq_spec k0 k') as [H1|H1], (beq_spec k0 k) as [H2|H2]; try reflexivity. exfalso. apply Hk. congruence.
+Qed.
+
+Lemma kv_insert_hd a k v m : HdRel kv_lt a m -> kv_lt a (k, v) -> HdRel kv_lt a (kv_insert k v m).
+Proof.
+  destruct m as [|[k' v'] r]; cbn [kv_insert]; intros H1 H2; [constructor; exact H2|].
+  destruct (beq k k'); [constructor; exact H2|].
+  destruct (lex_le k k'); constructor; [exact H2|]. inversion H1; assumption.
+Qed.
+
+Lemma kv_insert_sorted k v m : Sorted kv_lt m -> Sorted kv_lt (kv_insert k v m).
+Proof.
+  induction m as [|[k' v'] r IH]; intros Hs; cbn [kv_insert]; [repeat constructor|].
+  inversion Hs as [|x xs Hr Hh]; subst. destruct (beq_spec k k') as [Hk|Hk].
+  - subst k'. constructor; [exact Hr|]. destruct Hh as [|b l Hb]; constructor. exact Hb.
+  - destruct (lex_le k k') eqn:Ele; unfold lex_le in Ele.
+    + apply negb_true_iff in Ele. constructor; [exact Hs|]. constructor. unfold kv_lt; cbn [fst].
+      destruct (lex_lt k k') eqn:E; [reflexivity|]. exfalso; apply Hk, kv_lex_lt_connex; assumption.
+    + apply negb_false_iff in Ele. constructor; [apply IH, Hr|]. apply kv_insert_hd; [exact Hh | exact Ele].
+Qed.
+
+Lemma kv_fold_sorted l : forall m, Sorted kv_lt m ->
+  Sorted kv_lt (fold_left (fun m kv => kv_insert (fst kv) (snd kv) m) l m).
+Proof.
+  induction l as [|[k v] l IH]; intros m Hm; cbn [fold_left fst snd]; [exact Hm|]. apply IH, kv_insert_sorted, Hm.
+Qed.
+
+Lemma kv_fold_assoc k l : forall m,
+  assoc k (fold_left (fun m kv => kv_insert (fst kv) (snd kv) m) l m)
+  = match assoc k (rev l) with Some v => Some v | None => assoc k m end.
+Proof.
+  induction l as [|[k' v'] l IH]; intros m; cbn [fold_left fst snd rev]; [reflexivity|].
+  rewrite IH, assoc_app, kv_insert_assoc. cbn [assoc]. destruct (assoc k (rev l)); [reflexivity|].
+  destruct (beq k k'); reflexivity.
+Qed.
+
+(* (1) the map is sorted strictly by key, hence no key occurs twice *)
+Theorem kv_map_sorted : forall l, Sorted kv_lt (kv_map l).
+Proof. intros l. unfold kv_map. apply kv_fold_sorted. constructor. Qed.
+
+Theorem kv_map_strongly_sorted : forall l, StronglySorted kv_lt (kv_map l).
+Proof.
+  intros l. apply Sorted_StronglySorted; [|apply kv_map_sorted].
+  intros x y z Hxy Hyz. exact (kv_lex_lt_trans _ _ _ Hxy Hyz).
+Qed.
+
+Lemma strongly_sorted_nodup m : StronglySorted kv_lt m -> NoDup (map fst m).
+Proof.
+  induction 1 as [|a m Hs IH Ha]; cbn [map]; constructor; [|exact IH].
+  intros Hin. apply in_map_iff in Hin. destruct Hin as [b [Hb Hin]]. rewrite Forall_forall in Ha.
+  specialize (Ha b Hin). unfold kv_lt in Ha. rewrite Hb, kv_lex_lt_irrefl in Ha. discriminate.
+Qed.
+
+Theorem kv_map_nodup : forall l, NoDup (map fst (kv_map l)).
+Proof. intros l. apply strongly_sorted_nodup, kv_map_strongly_sorted. Qed.
+
+(* (2) each key has the value of its LAST occurrence in the source *)
+Theorem kv_map_lookup : forall k l, assoc k (kv_map l) = assoc k (rev l).
+Proof.
+  intros k l. unfold kv_map. rewrite kv_fold_assoc. cbn [assoc]. destruct (assoc k (rev l)); reflexivity.
+Qed.
+
+(* (3) the keys are exactly the keys of the source *)
+Theorem kv_map_keys : forall k l, In k (map fst (kv_map l)) <-> In k (map fst l).
+Proof.
+  intros k l.
+  assert (In k (map fst (kv_map l)) <-> assoc k (kv_map l) <> None) as E1.
+  { pose proof (assoc_none_iff k (kv_map l)) as H. destruct (in_dec (list_eq_dec N.eq_dec) k (map fst (kv_map l))) as [Hi|Hn].
+    - split; [intros _ E; apply H in E; exact (E Hi) | intros _; exact Hi].
+    - split; [intros Hi; exact (False_ind _ (Hn Hi)) | intros E; exfalso; apply E, H, Hn]. }
+  assert (In k (map fst (rev l)) <-> assoc k (rev l) <> None) as E2.
+  { pose proof (assoc_none_iff k (rev l)) as H. destruct (in_dec (list_eq_dec N.eq_dec) k (map fst (rev l))) as [Hi|Hn].
+    - split; [intros _ E; apply H in E; exact (E Hi) | intros _; exact Hi].
+    - split; [intros Hi; exact (False_ind _ (Hn Hi)) | intros E; exfalso; apply E, H, Hn]. }
+  rewrite E1, kv_map_lookup, <- E2, map_rev. symmetry. apply in_rev.
+Qed.
+
+(* the pairs of the map are the pairs (key, value at its last occurrence) *)
+Theorem kv_map_in : forall k v l, In (k, v) (kv_map l) <-> assoc k (rev l) = Some v.
+Proof.
+  intros k v l. rewrite <- kv_map_lookup. split.
+  - apply in_assoc_nodup, kv_map_nodup.
+  - apply assoc_some_in.
+Qed.
+
+Lemma kv_map_incl p l : In p (kv_map l) -> In p l.
+Proof.
+  destruct p as [k v]. intros H. apply kv_map_in in H. apply assoc_some_in in H. apply in_rev, H.
+Qed.
+
+(* the object is left out exactly when the record has no pairs *)
+Theorem kv_map_nil_iff : forall l, kv_map l = [] <-> l = [].
+Proof.
+  intros l. split; [|intros H; subst; reflexivity].
+  destruct l as [|[k v] l]; [reflexivity|]. intros H.
+  assert (In k (map fst (kv_map ((k, v) :: l)))) as Hin by (apply kv_map_keys; left; reflexivity).
+  rewrite H in Hin. destruct Hin.
+Qed.
+
+Print Assumptions kv_map_sorted.
+Print Assumptions kv_map_lookup.
+Print Assumptions kv_map_keys.
+
+(* ---- the JSON format: the object of the pairs decodes back ---- *)
+
+Lemma kv_bytes_ok_map l : kv_bytes_ok l -> kv_bytes_ok (kv_map l).
+Proof.
+  unfold kv_bytes_ok. rewrite !Forall_forall. intros H p Hp. apply H, kv_map_incl, Hp.
+Qed.
+
+(* the object is "{" key:value,... "}" over the sorted map (by definition) *)
+Lemma json_kv_object_shape m :
+  json_kv_object m
+  = [123] ++ join [44] (map (fun kv : bytes * kvval => json_string (fst kv) ++ [58] ++ json_kv_value (snd kv)) m) ++ [125].
+Proof. reflexivity. Qed.
+
+(* where it sits in the line: directly before "text"; and it is left out when there are no pairs *)
+Lemma json_line_kv ts r :
+  json_line ts r
+  = [123] ++ join [44]
+      ([json_field k_level (json_string (level_name (fr_level r))); json_field k_timestamp (json_string ts)]
+       ++ opt_field k_thread (fr_thread r) ++ opt_field k_module_path (fr_module r) ++ opt_field k_file (fr_file r)
+       ++ match fr_line r with Some n => [json_field k_line (dec n)] | None => [] end
+       ++ (if match fr_kv r with [] => true | _ => false end then []
+           else [json_field k_kv (json_kv_object (kv_map (fr_kv r)))])
+       ++ [json_field k_text (json_string (fr_msg r))])
+    ++ [125].
+Proof.
+  unfold json_line. destruct (fr_kv r) as [|p l] eqn:E; [reflexivity|].
+  destruct (kv_map (p :: l)) as [|q m] eqn:Em; [|reflexivity].
+  exfalso. pose proof (proj1 (kv_map_nil_iff (p :: l)) Em) as Hnil. discriminate Hnil.
+Qed.
+
+(* every key and every string value is recovered exactly by JSON decoding, every number by reading the decimal *)
+Theorem json_kv_roundtrip : forall r, kv_bytes_ok (fr_kv r) ->
+  forall k v, In (k, v) (kv_map (fr_kv r)) ->
+    json_unescape (length (json_escape k)) (json_escape k) = Some k
+    /\ match v with
+       | KStr s => json_kv_value v = json_string s /\ json_unescape (length (json_escape s)) (json_escape s) = Some s
+       | KInt n => json_kv_value v = dec n /\ dec_value (dec n) = n
+       end.
+Proof.
+  intros r Hok k v Hin. apply kv_bytes_ok_map in Hok. unfold kv_bytes_ok in Hok. rewrite Forall_forall in Hok.
+  destruct (Hok (k, v) Hin) as [Hk Hv]. cbn [fst snd] in Hk, Hv. split; [apply unescape_escape, Hk|].
+  destruct v as [n|s]; cbn [json_kv_value]; (split; [reflexivity|]).
+  - apply dec_value_dec.
+  - apply unescape_escape, Hv.
+Qed.
+Print Assumptions json_kv_roundtrip.
